@@ -162,7 +162,7 @@ def gen_case(rng):
         dst = gen_layout(rng, shape, tb, pair[1], False)
         dyn_dims = ([d for d in range(rank) if rng.random() < 0.9] or [0]) if dynamic else []
         return {"shape": shape, "el": el, "elsize": elsize, "src": src, "dst": dst, "dyn_dims": dyn_dims, "class": "unit-dims"}
-    rank = rng.choice([1, 2, 2, 3])
+    rank = rng.choice([1, 2, 2, 3, 3, 4])
     shape = gen_shape(rng, rank)
     el, elsize = rng.choice(ELTYPES)
     depth = [rng.choice([1, 1, 2, 2, 3]) for _ in range(rank)]
@@ -246,6 +246,19 @@ def run_case(case, res):
         R.reject(res, "copy-left-unlowered")
         return out
     res["programs"] += 1
+    # every runtime call must agree with the declaration the pass emitted for it (the C runtime is linked against that signature)
+    decls = {op.sym_name.data: op for op in m.walk() if op.name == "func.func"}
+    for op in m.walk():
+        if op.name != "func.call":
+            continue
+        R.bump(res, "runtime_calls_checked_against_declaration")
+        callee = op.callee.root_reference.data
+        d = decls.get(callee)
+        want = [str(t) for t in d.function_type.inputs.data] if d is not None else None
+        have = [str(o.type) for o in op.operands]
+        if want != have:
+            out.append({"kind": "runtime-call-disagrees-with-declaration", "detail": f"call of {callee} passes {have}, the emitted declaration takes {want}", "case": case})
+            return out
     mach = DmaMachine(m, step_budget=400_000)
     # source memory: unique tags per (element, byte); everything else unmapped
     src_fp = set()
